@@ -161,6 +161,35 @@ CHECKS["C12"] = dict(
           "and frame obligations, not by a column read-set proof."),
     ref="DESIGN.md section 4 C12")
 
+CHECKS["C01"] = dict(
+    engine="E3",
+    technique="contract-based deductive verification: the real build_system_matrix is evaluated symbolically for arbitrary pit lengths; its COO arrays are decomposed along the evaluator's store log and matched layout-free against the spec families (tiling / pairing / family VCs with compress-rank axioms), the load vector row by row; discharged by z3, open queries refuted on bounded instances",
+    text=("Proved for every number of nodes and branches: the assembled hydraulic system consists exactly of the branch rows, the from/to "
+          "incidence entries (-1/+1 times df_dm_node) of the non-slack nodes, the pressure-controller rows, the slack identity rows and the "
+          "slack-mass rows; node rows of the right-hand side are -LOAD - sum_from m + sum_to m, slack and controller rows are 0, branch rows "
+          "carry the branch residual; with df_dm_node = 1 and load_vec_nodes = m (C02 stage contract) lemma L1 gives a zero mass balance at "
+          "every non-slack node after a full Newton step; source/sink signs and the per-row load term are proved under C09."),
+    note=(TB + "compress / np.where / csr_matrix / _sum_by_group by assumed contracts (A4: order-preserving compress with rank inverse, pair "
+          "enumeration of A == B[:, None], COO entries with equal position are summed, unique increasing group keys with groupsum a spec-level "
+          "symbol); spsolve exact (A4); requires: as many pressure-controller branches as controlled nodes. L1 is proved by z3 for 0..2 "
+          "branches per side and is the linear-algebra identity sum a (x - dx) = c for J dx = J x - c in general (paper argument). Round-off of "
+          "the linear solve and the result-extraction sums (_sum_by_group internals, pipes with internal sections) are not covered."),
+    ref="DESIGN.md section 4 C01")
+
+CHECKS["C03"] = dict(
+    engine="E3",
+    technique="contract-based deductive verification: row-generic VCs from the AST of the controlling components' classmethods (identity / lift rows, set-point columns), set_fixed_node_entries with the group-sum contract, matrix families of C01; discharged by z3",
+    text=("Proved: active flow controllers and mass circulation pumps write the identity row (df_dm=1, df_dp=df_dp1=0, load=0) and carry their "
+          "set mass flow in MDOTINIT; pressure circulation pumps write df_dp=1, df_dp1=-1 with PL = plift_bar; active pressure controllers "
+          "zero their branch row and are PC branches (their matrix row (NN+b, n, 1) with right-hand side 0 is proved under C01); the "
+          "compressor lift is p_from_abs (ratio-1) for forward and 0 for reverse flow; fixed node values are the running mean over all "
+          "fixings of the node and mark it pressure/temperature-fixed; sinks/sources/storages report mdot x scaling where in service and "
+          "supplied; the circulation pump's thermal row is the identity T_out = t_flow."),
+    note=(TB + "A1/A4; get_component_array by contract (rows aligned with the active pit); the pump lift is checked only up to the expression "
+          "of the volume flow it evaluates its curve at (its standard-type dispatch through itemgetter/map is outside the subset) -- see "
+          "known finding F24; 'met exactly' additionally needs convergence (C05) and, for lifts/ratios, the momentum equation of C02."),
+    ref="DESIGN.md section 4 C03")
+
 NOT_APPLICABLE = {
     "C08": "uniqueness of the solution of the nonlinear system within tolerances and convergence of damped Newton in floating point: a whole-history/analytic property, no pre/post contract within reach expresses it (DESIGN.md section 5)",
     "C15": "the save/load round trip is the behaviour of pandapower/pandas/json/pickle/scipy object state; a contract strong enough would have to assume the property (DESIGN.md section 5)",
